@@ -3,7 +3,7 @@
 # <P>-1/-2) and /tmp/seedout2 (round 2, names <P>-3/-4) that has no
 # /verif/seeded/<name>/meta.json yet
 cd /verif
-for root in /tmp/seedout:0 /tmp/seedout2:2 /tmp/seedout3:4 /tmp/seedout4:6 /tmp/seedout5:8 /tmp/seedout6:10; do
+for root in /tmp/seedout:0 /tmp/seedout2:2 /tmp/seedout3:4 /tmp/seedout4:6 /tmp/seedout5:8 /tmp/seedout6:10 /tmp/seedout7:12; do
   R=${root%%:*}; OFF=${root##*:}
   for d in $R/*/*/; do
     [ -d "$d" ] || continue
